@@ -289,6 +289,24 @@ pub fn oracle(f: u32, a: &Args, out: &Args) -> Option<(&'static str, String)> {
     }
     if f == 251 || (f == 253 && a[2][0] == 0) {
         if let Some(x) = session_id_oracle(0x54, &a[0], out) { return Some(x); }
+        // C13 / C12: the stream type decides, compared as the full 62-bit value: 0, 2, 3 and 0x54 are the
+        // known ones, 0x21 + 0x1f n is reserved, everything else is unknown
+        let b = &a[0];
+        if let Some(f0) = b.first() {
+            let n = 1usize << (f0 >> 6);
+            if b.len() >= n {
+                let mut t = f0 & 0x3f;
+                for x in &b[1..n] { t = t << 8 | *x; }
+                let known = t == 0 || t == 2 || t == 3 || t == 0x54;
+                let grease = t >= 0x21 && (t - 0x21) % 0x1f == 0;
+                if !known && !grease && !(out[0][0] == 2 && out[0][2] == 0) {
+                    return Some(("C13+C12", format!("stream type {:#x} is unknown but the header reader returned {:?}", t, out)));
+                }
+                if grease && !(out[0][0] == 1 && out[1][0] == 4 && out[1][1] == t) {
+                    return Some(("C13", format!("reserved stream type {:#x} was not recognised as such: {:?}", t, out)));
+                }
+            }
+        }
     }
     match f {
         201 | 202 | 203 => {
@@ -708,7 +726,9 @@ pub fn generate_sheader(rng: &mut Rng, thorough: bool) -> Vec<Case> {
     for id in grease_ids(rng) {
         lib.push((enc(id), "grease"));
     }
-    for id in [1u64, 4, 5, 0x20, 0x22, 0x41, 0x42, 0x53, 0x55, 0x4242, 1 << 30, MAXV] {
+    for id in [1u64, 4, 5, 0x20, 0x22, 0x41, 0x42, 0x53, 0x55, 0x4242, 1 << 30, MAXV,
+               // 8-byte types whose low 32 bits look like a known type
+               0x1_0000_0000, 0x1_0000_0002, 0x1_0000_0003, 0x1_0000_0054, 0x3fff_ffff_0000_0054, 0x2_0000_0021] {
         lib.push((enc(id), "unknown"));
     }
     for s in session_ids(rng) {
